@@ -25,6 +25,12 @@ FIXED_FRAGMENTS = [
     ["zq24 = [1, 2].collect do |zq25|", "  zq25.to_s", "end"],
     ["zq26 = nil", "zq26 ||= 5"],
     ["case 1", "when 1", "  zq27 = 2", "else", "  zq27 = \"s\"", "end"],
+    # statement modifiers and other one-line forms (their end-of-statement handling differs from the block forms)
+    ["zq28 = 0", "zq28 += 1 while zq28 < 3"], ["zq29 = 5", "zq29 -= 1 until zq29 < 1"], ["zq30 = 1", "zq30 = 2 if zq30 == 1"],
+    ["zq31 = 1", "zq31 = 3 unless zq31 == 2"], ["zq32 = true ? 1 : nil", "zq33 = zq32.nil? ? 0 : zq32"], ["zq34 = [1, 2].collect { |zq35| zq35.to_s }"],
+    ["zq36 = 1; zq37 = 2"], ["zq38 = (1..3)", "for zq39 in zq38", "  zq39.to_s", "end"], ["zq40 = 1", "begin", "  zq40 = 2", "rescue", "  zq40 = 3", "end"],
+    ["zq41 = -> (zq42) { zq42 }", "zq41.call(1)"], ["zq43 = \"a\"", "zq44 = \"#{zq43} b\""], ["zq45 = <<~EOS", "  text", "EOS"],
+    ["zq46 = %w(a b)", "zq47 = :sym"], ["zq48 = 1", "zq48 += 1", "zq48 ||= 2", "zq49 = !zq48.nil?"], ["return_zq = 1 if false"],
 ]
 
 
@@ -47,7 +53,7 @@ class Check(Prop):
         "crashing/hanging runs are discarded here and counted",
         "violations seen through the in-process server are re-evaluated on the guard-off binary before being reported",
     )
-    BUDGET = {"quick": 2400, "thorough": 40000}
+    BUDGET = {"quick": 1800, "thorough": 40000}
     WALL = {"quick": 150, "thorough": 1500}
 
     def __init__(self, *a):
